@@ -159,24 +159,28 @@ def getterOf (ty : PType) (v : List Int) : Option Getter :=
 
 def fmtCompiled (c : Compiled) (get : Getter) (buf : Text) : R Text := formatSteps c.cu c.used get c.steps buf
 
+/-- the bucket a pattern of the type starts from -/
+def bucket0 (ty : PType) : Bucket :=
+  match ty with
+  | .time => timeBucket0 0
+  | .date => dateBucket0
+  | .offset => offsetBucket0
+
+/-- `bucket.calculate_value(used_fields, text)` in canonical fields -/
+def bucketValue (ty : PType) (used : Nat) (b : Bucket) : R (Option (List Int)) :=
+  match ty with
+  | .time => .ok ((timeValue 0 used b).map (fun n => [n]))
+  | .date => .ok ((dateValue used b).map (fun v => [v.1, v.2.1, v.2.2]))
+  | .offset => mapR (fun o => o.map (fun s => [s])) (offsetBucketValue b)
+
 /-- `__SteppedPattern.parse`: empty text, parse actions, `calculate_value`, end of text (by position) -/
 def parseCompiled (ty : PType) (c : Compiled) (l : Text) : R (Option (List Int)) :=
   if l = [] then .ok none else
-  let b0 : Bucket := match ty with
-    | .time => timeBucket0 0
-    | .date => dateBucket0
-    | .offset => offsetBucket0
-  match parseSteps c.cu c.steps l b0 with
+  match parseSteps c.cu c.steps l (bucket0 ty) with
   | .error e => .error e
   | .ok none => .ok none
   | .ok (some (b, rest)) =>
-    let v : R (Option (List Int)) := match ty with
-      | .time => .ok ((timeValue 0 c.used b).map (fun n => [n]))
-      | .date => .ok ((dateValue c.used b).map (fun (y, m, d) => [y, m, d]))
-      | .offset => match offsetBucketValue b with
-        | .error e => .error e
-        | .ok o => .ok (o.map (fun s => [s]))
-    match v with
+    match bucketValue ty c.used b with
     | .error e => .error e
     | .ok none => .ok none
     | .ok (some v) => if rest = [] then .ok (some v) else .ok none
